@@ -32,6 +32,7 @@ functions mirroring go1.23 / rare, and `match_eq_spec`, `match_sound`, `match_ba
   `gzip_cut_in_header_is_plain` – the gzip reader (header, DEFLATE, trailer, member loop) is a Lean function of the
   file's bytes; `dispatch_matches_source`, `dispatch_usage_iff`, `dispatch_reader`, `dispatch_plain` – the flag
   plumbing of `BuildBatcherFromArguments`.
+* `run_output_complete` – stdout of the whole run is, input by input, the matching lines of what each input delivered.
 * `run_exit_status` – the exit status of the whole run from what the planned inputs deliver (read errors > parse errors >
   nothing matched > 0), standard input included.
 * `errors_counted`, `failed_input_exit_2` – read errors = number of failed inputs; any failure ⇒ exit 2.
@@ -201,6 +202,37 @@ theorem run_exit_status (cfg : Config) (args : List Path) (fs : FsOracle) (files
   refine ⟨rfl, rfl, rfl, ?_⟩
   rw [exitCode_spec]
   cases cfg.mode <;> rfl
+
+/-- **What the run prints, input by input** (`filter -e '{src}:{line}:{0}'`): for every planned input, in plan order, one
+    line `name:number:match` for every matching line of the bytes that input delivered, numbered from 1 within the input.
+    A healthy input delivers its whole content (decompressed under `-z`), so ALL its matching lines are printed whatever
+    happens to the other inputs; a failing one contributes the lines before its failure; nothing else is printed.
+    (The order across inputs depends on the schedule: `others_unaffected` is the statement for the concurrent pipeline.) -/
+theorem run_output_complete (cfg : Config) (args : List Path) (fs : FsOracle) (files : Path → FileOracle)
+    (stdin : Bytes) (stdinFails : Bool) (hu : usageCheck cfg.batch cfg.readers cfg.gunzip args = none)
+    (hm : cfg.mode ≠ .histo) :
+    (run cfg args fs files stdin stdinFails).out
+      = (plan cfg.recursive args fs).flatMap fun s =>
+          ((C04.splitLines (s.delivered cfg.gunzip files stdin)).zipIdx 1).filterMap fun p =>
+            (cfg.mode.matchText p.1).map fun t => s.name ++ [58] ++ itoa p.2 ++ [58] ++ t := by
+  have hout : ∀ g : Source → SrcRun,
+      (∀ s, (g s).lines = C04.splitLines (s.delivered cfg.gunzip files stdin) ∧ (g s).name = s.name) →
+      ((plan cfg.recursive args fs).map g).flatMap (outLines cfg.mode)
+        = (plan cfg.recursive args fs).flatMap fun s =>
+          ((C04.splitLines (s.delivered cfg.gunzip files stdin)).zipIdx 1).filterMap fun p =>
+            (cfg.mode.matchText p.1).map fun t => s.name ++ [58] ++ itoa p.2 ++ [58] ++ t := by
+    intro g hg
+    rw [List.flatMap_map]
+    congr 1
+    funext s
+    unfold outLines
+    rw [(hg s).1, (hg s).2]
+  simp only [run, hu]
+  rw [hout _ (by
+    intro s
+    cases s with
+    | stdin => exact ⟨rfl, rfl⟩
+    | file p => exact ⟨runFile_lines _ _ _, runFile_name _ _ _⟩)]
 
 /-- `rare histo` over a healthy file with a non-numeric line: no read error, exit 2 ("Parse errors"); the same file with
     `filter`: exit 0; a file without any matching line (`filter -m k`): exit 1 -/
